@@ -89,6 +89,10 @@ enum DirTamper {
     /// content, Some(2) link to a file with other content
     ReplaceByNonFile { file: u16, symlink: Option<u8> },
     DeleteTrio { trio: u16 },
+    /// a pristine copy of the whole immutable directory under `<db>/<place>/immutable` (place: ledger, volatile, aaa,
+    /// zzz, `.hidden`), then one real file altered: a verifier that looks for "a directory named immutable" may hash
+    /// the copy
+    ShadowImmutableDir { place: u8, file: u16, pos: u16, xor: u8 },
     ReplaceFresh { file: u16, content: Content },
     /// exchange the contents of two file names
     Swap { a: u16, b: u16 },
@@ -170,6 +174,7 @@ fn dir_tamper_strategy() -> impl Strategy<Value = DirTamper> {
         2 => (f(), p()).prop_map(|(file, newlen)| DirTamper::Truncate { file, newlen }),
         2 => (f(), prop::collection::vec(any::<u8>(), 1..4)).prop_map(|(file, extra)| DirTamper::Append { file, extra }),
         2 => f().prop_map(|file| DirTamper::Delete { file }),
+        3 => (0u8..5, f(), p(), 1u8..=255).prop_map(|(place, file, pos, xor)| DirTamper::ShadowImmutableDir { place, file, pos, xor }),
         3 => (f(), prop::option::of(0u8..3)).prop_map(|(file, symlink)| DirTamper::ReplaceByNonFile { file, symlink }),
         1 => f().prop_map(|trio| DirTamper::DeleteTrio { trio }),
         2 => (f(), small_content_strategy()).prop_map(|(file, content)| DirTamper::ReplaceFresh { file, content }),
@@ -530,6 +535,25 @@ fn apply_dir_tamper(w: &mut World, db: &Db10, t: &DirTamper, labels: &mut BTreeS
                     labels.insert("dir:replace-by-directory".into());
                 }
             }
+        }
+        DirTamper::ShadowImmutableDir { place, file, pos, xor } => {
+            let place_name = ["ledger", "volatile", "aaa", "zzz", ".hidden"][*place as usize % 5];
+            let shadow = w.imm_dir.parent().expect("db dir").join(place_name).join("immutable");
+            std::fs::create_dir_all(&shadow).expect("mkdir");
+            for (n, b) in w.model.clone() {
+                std::fs::write(shadow.join(&n), &b).expect("write");
+            }
+            let name = pick(*file);
+            if let Some(mut b) = w.model.get(&name).cloned() {
+                if b.is_empty() {
+                    b.push(*xor);
+                } else {
+                    let i = pick_index(*pos, b.len());
+                    b[i] ^= *xor;
+                }
+                w.write(&name, b);
+            }
+            labels.insert(format!("dir:shadow-immutable-dir:{place_name}"));
         }
         DirTamper::DeleteTrio { trio } => {
             let n = db.first + pick_index(*trio, db.trios.len()) as u64;
